@@ -35,6 +35,7 @@ import (
 	"os"
 	"os/exec"
 	"path/filepath"
+	"reflect"
 	"runtime"
 	"sort"
 	"strconv"
@@ -646,6 +647,167 @@ func vC18Serve(b *BlockList, qname string, qtype uint16, wireBorn bool) (string,
 	return out, desc, seen
 }
 
+// ---------------------------------------------------------------- finding blocklist-entry-spelling
+//
+// The lists are keyed by presentation-form STRINGS. A name has more than one spelling:
+// the wire decoder writes the bytes  . space ' @ ; ( ) " \  of a label with a backslash, a
+// person writes "a@b.test" or "my printer.local". An entry (or an API probe) spelled the
+// second way never meets the query name spelled the first way.
+
+func vC18IsSpecial(c byte) bool {
+	switch c {
+	case ' ', '\'', '@', ';', '(', ')', '"':
+		return true
+	}
+	return false
+}
+
+// an unescaped byte the wire decoder would have escaped
+func vC18NonCanonical(s string) bool {
+	for i := 0; i < len(s); i++ {
+		if s[i] == '\\' {
+			i++
+			continue
+		}
+		if vC18IsSpecial(s[i]) {
+			return true
+		}
+	}
+	return false
+}
+
+// the labels a presentation-form string denotes, lower-cased (Spec.name_of), and for each
+// whether it was spelled with an unescaped special byte
+func vC18Decode(s string) (labels []string, hand []bool) {
+	if s == "" || s == "." {
+		return nil, nil
+	}
+	var cur []byte
+	flag := false
+	low := func(c byte) byte {
+		if c >= 'A' && c <= 'Z' {
+			return c + 32
+		}
+		return c
+	}
+	dig := func(c byte) bool { return c >= '0' && c <= '9' }
+	for i := 0; i < len(s); i++ {
+		switch {
+		case s[i] == '\\' && i+3 < len(s) && dig(s[i+1]) && dig(s[i+2]) && dig(s[i+3]):
+			cur = append(cur, low(byte((int(s[i+1]-'0')*100+int(s[i+2]-'0')*10+int(s[i+3]-'0'))%256)))
+			i += 3
+		case s[i] == '\\' && i+1 < len(s):
+			cur = append(cur, low(s[i+1]))
+			i++
+		case s[i] == '\\':
+		case s[i] == '.':
+			labels, hand = append(labels, string(cur)), append(hand, flag)
+			cur, flag = nil, false
+		default:
+			if vC18IsSpecial(s[i]) {
+				flag = true
+			}
+			cur = append(cur, low(s[i]))
+		}
+	}
+	if len(cur) > 0 {
+		labels, hand = append(labels, string(cur)), append(hand, flag)
+	}
+	return labels, hand
+}
+
+// is the verdict on one of the probes a matter of spelling? an entry that is the probe's
+// name or one of its ancestors, where the entry or the probe's part it is compared with
+// holds a label spelled with an unescaped special byte
+func vC18SpellingClass(m, wild, w []string, probes []string) bool {
+	for _, q := range probes {
+		ql, qh := vC18Decode(q)
+		for _, l := range [][]string{m, wild, w} {
+			for _, e := range l {
+				el, eh := vC18Decode(e)
+				if len(el) == 0 || len(el) > len(ql) {
+					continue
+				}
+				same, hand := true, false
+				for i := range el {
+					if el[len(el)-1-i] != ql[len(ql)-1-i] {
+						same = false
+					}
+					if eh[len(el)-1-i] || qh[len(ql)-1-i] {
+						hand = true
+					}
+				}
+				if same && hand {
+					return true
+				}
+			}
+		}
+	}
+	return false
+}
+
+const vC18SpellingKey = "blocklist-entry-spelling"
+
+func vC18Strs(x any) []string {
+	switch v := x.(type) {
+	case []string:
+		return v
+	case []any:
+		var out []string
+		for _, e := range v {
+			if s, ok := e.(string); ok {
+				out = append(out, s)
+			}
+		}
+		return out
+	}
+	return nil
+}
+
+// the fkey of an Exists / Serve case, from its description
+func vC18SpellingFkey(coq string, desc any) string {
+	d, ok := desc.(map[string]any)
+	if !ok {
+		return ""
+	}
+	var probes []string
+	switch {
+	case strings.HasPrefix(coq, "CaseServe "):
+		if q, ok := d["qname"].(string); ok {
+			probes = append(probes, q)
+		}
+	case strings.HasPrefix(coq, "CaseExists "):
+		if l, ok := d["exists"].([]any); ok {
+			for _, e := range l {
+				switch v := e.(type) {
+				case string: // a single (name, verdict) pair
+					probes = append(probes, v)
+				case []any:
+					if len(v) > 0 {
+						if q, ok := v[0].(string); ok {
+							probes = append(probes, q)
+						}
+					}
+				}
+			}
+		}
+	case strings.HasPrefix(coq, "CaseReload "):
+		// a configured whitelist entry spelled by hand: how the fresh list keys it is part of the finding
+		for _, e := range vC18Strs(d["whitelist"]) {
+			if vC18NonCanonical(e) {
+				return vC18SpellingKey
+			}
+		}
+		return ""
+	default:
+		return ""
+	}
+	if vC18SpellingClass(vC18Strs(d["m"]), vC18Strs(d["wild"]), vC18Strs(d["w"]), probes) {
+		return vC18SpellingKey
+	}
+	return ""
+}
+
 // ---------------------------------------------------------------- output
 
 type vC18Out struct {
@@ -655,6 +817,9 @@ type vC18Out struct {
 
 func (o *vC18Out) emit(k, coq string, desc any, nontrivial bool, goFail, fkey string) {
 	rec := map[string]any{"k": k, "coq": coq, "desc": desc, "nontrivial": nontrivial}
+	if fkey == "" {
+		fkey = vC18SpellingFkey(coq, desc)
+	}
 	if goFail != "" {
 		rec["go_fail"] = goFail
 	}
@@ -744,9 +909,9 @@ func vC18CaseAlphabet(t *testing.T, r *rand.Rand, out *vC18Out) {
 			return []string{"x.ads." + one(i) + "."}
 		}, []string{"deep.OK.ads." + strings.ToUpper(alpha) + ".", "nok.ads." + alpha + "."}},
 		// the neighbours of the letter ranges are different names
-		{[]string{"a[b.test.", "q{r.test.", "x`y.test.", "*.m@n.test."}, []string{"safe.a[b.test."},
+		{[]string{"a[b.test.", "q{r.test.", "x`y.test.", "*.m`n.test."}, []string{"safe.a[b.test."},
 			func(i int) []string { return nil },
-			[]string{"a{b.test.", "A[B.test.", "q[r.test.", "Q{R.TEST.", "x@y.test.", "X`Y.test.", "w.m`n.test.", "w.M@N.test.",
+			[]string{"a{b.test.", "A[B.test.", "q[r.test.", "Q{R.TEST.", "X`Y.test.", "w.m`n.test.", "w.M`N.test.", "m`n.test.",
 				"safe.a{b.test.", "SAFE.A[B.test."}},
 	}
 	for _, l := range lists {
@@ -888,6 +1053,76 @@ func vC18CaseEscDot(t *testing.T, r *rand.Rand, out *vC18Out) {
 	nr := vC18IPNum(net.ParseIP(cfg.Nullroute), true)
 	nr6 := vC18IPNum(net.ParseIP(cfg.Nullroutev6), false)
 	out.emit("serve-escdot", fmt.Sprintf("CaseServe %s %s %s %s%%N %s%%N %s %d%%N (%s)", vC18List(m), vC18List(wild), vC18List(w), nr, nr6, vC18Str(seen), qt, o),
+		desc, true, "", "")
+}
+
+// names whose labels hold a byte the wire decoder escapes (DNS-SD instance names are the
+// everyday example: "my printer", "john's", "user@host"), spelled by hand in the lists or
+// in the probe: finding blocklist-entry-spelling; the escaped spelling is the control
+func vC18CaseSpelling(t *testing.T, r *rand.Rand, out *vC18Out) {
+	cfg := vC18Cfg(r, vC18Dir(t))
+	base := []string{"test.", "local.", "_ipp._tcp.local.", "sub.example.org."}[r.Intn(4)]
+	raw := []string{"u@v", "p(q)", "it's", `say"hi`, "a;b", "my printer"}[r.Intn(6)]
+	esc := ""
+	for i := 0; i < len(raw); i++ {
+		if vC18IsSpecial(raw[i]) {
+			esc += `\`
+		}
+		esc += string(raw[i])
+	}
+	if r.Intn(2) == 0 {
+		raw, esc = vC18MixCase(r, raw), vC18MixCase(r, esc)
+	}
+	query := esc + "." + base
+	mode := r.Intn(5)
+	viaExists := ""
+	switch mode {
+	case 0: // hand-spelled plain entry (white space is refused in block entries: the list stays empty)
+		cfg.Blocklist = []string{raw + "." + base}
+	case 1: // hand-spelled whitelist entry under a wildcard block
+		cfg.Blocklist = []string{"*." + base}
+		cfg.Whitelist = []string{raw + "." + base}
+		if r.Intn(2) == 0 {
+			query = "x." + query
+		}
+	case 2: // entry in the decoder's spelling, probe spelled by hand (the API's exists endpoint)
+		if strings.Contains(raw, " ") {
+			raw, esc = "u@v", `u\@v`
+			query = esc + "." + base
+		}
+		cfg.Blocklist = []string{esc + "." + base}
+		viaExists = raw + "." + base
+	case 3: // control: everything in the decoder's spelling
+		if strings.Contains(raw, " ") {
+			cfg.Blocklist = []string{"*." + base}
+			cfg.Whitelist = []string{esc + "." + base}
+		} else {
+			cfg.Blocklist = []string{esc + "." + base}
+		}
+	default: // control: hand-spelled entry elsewhere in the list, unrelated to the probe
+		cfg.Blocklist = []string{raw + ".elsewhere.", "*." + base}
+	}
+	b := New(cfg)
+	m, wild, w := vC18Dump(b)
+	if viaExists != "" {
+		got := b.Exists(viaExists)
+		out.emit("exists-spelling", fmt.Sprintf("CaseExists %s %s %s [(%s, %v)]", vC18List(m), vC18List(wild), vC18List(w), vC18Str(viaExists), got),
+			map[string]any{"m": m, "wild": wild, "w": w, "exists": []any{viaExists, got}}, true, "", "")
+		return
+	}
+	qt := vC18Qtypes[r.Intn(len(vC18Qtypes))]
+	o, desc, seen := vC18Serve(b, query, qt, true)
+	if o == "" {
+		return
+	}
+	desc["m"], desc["wild"], desc["w"] = m, wild, w
+	nr := vC18IPNum(net.ParseIP(cfg.Nullroute), true)
+	nr6 := vC18IPNum(net.ParseIP(cfg.Nullroutev6), false)
+	k := "serve-spelling"
+	if mode >= 3 {
+		k = "serve-spelling-control"
+	}
+	out.emit(k, fmt.Sprintf("CaseServe %s %s %s %s%%N %s%%N %s %d%%N (%s)", vC18List(m), vC18List(wild), vC18List(w), nr, nr6, vC18Str(seen), qt, o),
 		desc, true, "", "")
 }
 
@@ -1260,6 +1495,33 @@ func vC18CaseParse(t *testing.T, r *rand.Rand, out *vC18Out) {
 		map[string]any{"whitelist": whitelist, "blocklist": cfgBlock, "files": files, "loaded_m": m, "loaded_wild": wild}, len(m)+len(wild) > 0, "", "")
 }
 
+// the snapshot counter (BlockList.version), read by reflection so that the driver still
+// builds when the field changes its type (plain integer or sync/atomic value)
+func vC18Version(b *BlockList) (uint64, bool) {
+	b.mu.RLock()
+	defer b.mu.RUnlock()
+	f := reflect.ValueOf(b).Elem().FieldByName("version")
+	if !f.IsValid() {
+		return 0, false
+	}
+	switch f.Kind() {
+	case reflect.Uint, reflect.Uint32, reflect.Uint64:
+		return f.Uint(), true
+	case reflect.Int, reflect.Int32, reflect.Int64:
+		return uint64(f.Int()), true
+	case reflect.Struct:
+		if v := f.FieldByName("v"); v.IsValid() {
+			switch v.Kind() {
+			case reflect.Uint32, reflect.Uint64:
+				return v.Uint(), true
+			case reflect.Int32, reflect.Int64:
+				return uint64(v.Int()), true
+			}
+		}
+	}
+	return 0, false
+}
+
 // gated schedules with the REAL API methods: the driver holds saveMu, so every
 // call that has something to save stops at the door of persist() after its
 // mutation; calls that change nothing (Remove of an absent name, Set / SetBatch of
@@ -1335,9 +1597,15 @@ func vC18CaseGated(t *testing.T, r *rand.Rand, out *vC18Out) {
 			bm1, bw1, _ := vC18Dump(ref)
 			changed := fmt.Sprintf("%q %q", bm0, bw0) != fmt.Sprintf("%q %q", bm1, bw1)
 			version := func() uint64 {
-				b.mu.RLock()
-				defer b.mu.RUnlock()
-				return b.version
+				v, _ := vC18Version(b)
+				return v
+			}
+			if _, ok := vC18Version(b); ret > 0 && !changed && !ok {
+				// no snapshot counter to watch: a duplicate's progress cannot be observed, take another call
+				if i < 50 {
+					ncalls++
+				}
+				continue
 			}
 			v0 := version()
 			done := make(chan int, 1)
@@ -2306,6 +2574,8 @@ func TestVerifC18(t *testing.T) {
 			continue
 		}
 		switch x := r.Intn(100); {
+		case x == 35:
+			vC18CaseSpelling(t, r, out)
 		case x < 36:
 			vC18CaseExists(t, r, out)
 		case x < 54:
